@@ -211,3 +211,24 @@ Fixpoint spec_parse (fuel : nat) (d : nat) (b : list Z) : option msg :=
 Definition spec_parse_top (d : nat) (b : list Z) : option msg := spec_parse (S (length b)) d b.
 
 End Top.
+
+(* ---------- which messages the specification can read back (Proofs/SpecCanon*.v) *)
+(* The specification refuses varints that overflow 64 bits; a retained unknown field may carry one (protobuf-c keeps the
+   bytes without looking at the value).  [unk_strict]: no unknown field, at any depth, holds such a varint. *)
+Definition ufield_strict (u : ufield) : bool :=
+  if u_wt u =? 0 then varint_val (u_data u) <? two64 else true.
+
+Definition sval_strict (rec : msg -> bool) (v : sval) : bool :=
+  match v with VMsg (Some m) => rec m | _ => true end.
+
+Fixpoint unk_strict (m : msg) : bool :=
+  match m with
+  | Msg _ slots unions unk =>
+      forallb (fun s => match s with
+                        | SOne _ v => sval_strict unk_strict v
+                        | SRep _ _ (Some l) => forallb (sval_strict unk_strict) l
+                        | _ => true
+                        end) slots &&
+      forallb (fun cv : Z * sval => sval_strict unk_strict (snd cv)) unions &&
+      forallb ufield_strict unk
+  end.
